@@ -372,10 +372,20 @@ def _generate_filter_in_python(node, def_filter, consts=None):
         def_filter.append(")")
     elif isinstance(node, FilterBinary):
         assert node.op in ("and", "or")
+        # x1 op x2 op ... xn is parsed as ((x1 op x2) op x3)...: written out
+        # as one flat chain (Python nests at most ~200 parentheses)
+        operands = [node.right]
+        left = node.left
+        while isinstance(left, FilterBinary) and left.op == node.op:
+            operands.append(left.right)
+            left = left.left
+        operands.append(left)
+        operands.reverse()
         def_filter.append("(")
-        def_filter.extend(_generate_filter_in_python(node.left, [], consts))
-        def_filter.append(" " + node.op + " ")
-        def_filter.extend(_generate_filter_in_python(node.right, [], consts))
+        for i, operand in enumerate(operands):
+            if i:
+                def_filter.append(" " + node.op + " ")
+            def_filter.extend(_generate_filter_in_python(operand, [], consts))
         def_filter.append(")")
     elif isinstance(node, FilterUnary):
         if node.op == "has":
